@@ -323,7 +323,11 @@ def _shapes_c04_4(tier):
         add("psk_dhe", "s", 0, 288, 16)
         add("psk_dhe", "c", 0, 352, 2, 8)
         add("cert", "s", 0, 160, 16)
+        add("hrr", "s", 0, 96, 16)
+        add("hrr", "c", 352, 704, 2, 16)
     else:
+        add("hrr", "s", 0, 400, 8)
+        add("hrr", "c", 0, 800, 2)
         add("psk_dhe", "s", 0, 288, 8)
         add("psk_dhe", "c", 0, 352, 2)
         add("cert", "s", 0, 1280, 16)
@@ -417,7 +421,15 @@ def c04_4(I, shape):
             hit[0] = True
         return data
     mitm.wire = [None]
-    sc = P.Scenario13(I, PAIR_RND4, shape["auth"], "aes128", intctxt=True)
+    if shape["auth"] == "hrr":
+        sc = P.Scenario13(I, PAIR_RND4, "psk_dhe", "aes128", intctxt=True)
+        sc.cset.keyShares = ["x25519"]
+        sc.cset.eccCurves = ["x25519", "secp256r1"]
+        sc.sset.keyShares = ["secp256r1"]
+        sc.sset.eccCurves = ["secp256r1"]
+    else:
+        sc = P.Scenario13(I, PAIR_RND4, shape["auth"], "aes128",
+                          intctxt=True)
     sc.run(mitm)
     if skipped[0]:
         I.cover("record-length-field")
@@ -444,6 +456,11 @@ SCEN = {
                               server_cred=None, psk=True),
     "tls13-cert": lambda: dict(cset=P.settings13(), sset=P.settings13(),
                                server_cred="rsa"),
+    "tls13-hrr": lambda: dict(
+        cset=P.settings13(keyShares=["x25519"],
+                          eccCurves=["x25519", "secp256r1"]),
+        sset=P.settings13(keyShares=["secp256r1"], eccCurves=["secp256r1"]),
+        server_cred=None, psk=True),
     "tls13-cert-client": lambda: dict(cset=P.settings13(),
                                       sset=P.settings13(),
                                       server_cred="rsa", client_cred="ecdsa",
@@ -521,10 +538,10 @@ def check_agree(I, sc):
 
 def _shapes_c04_5(tier):
     out = []
-    for sc in ("tls13-psk", "tls13-cert", "tls13-cert-client",
+    for sc in ("tls13-psk", "tls13-cert", "tls13-cert-client", "tls13-hrr",
                "tls12-ecdhe-gcm", "tls12-rsa-cbc", "tls10-dhe-cbc"):
         for d in ("c", "s"):
-            for k in range(0, 7):
+            for k in range(0, 9 if sc == "tls13-hrr" else 7):
                 for act in ("drop", "dup", "swap"):
                     out.append(dict(scenario=sc, dir=d, k=k, action=act))
     return out
